@@ -21,6 +21,8 @@ func mustDeref(t types.Type) types.Type {
 	panic(fmt.Sprintf("mustDeref: %v is not a pointer", t))
 }
 
+type noopCall struct{ sig *types.Signature }
+
 // poison marks SSA values whose defining instruction was skipped during a
 // tolerant package initialisation.
 type poison struct{ why string }
@@ -285,6 +287,10 @@ func prepareCall(fr *frame, call *ssa.CallCommon) (fn value, args []value) {
 		// Interface method invocation.
 		recv := v.(iface)
 		if recv.t == nil {
+			if strings.Contains(call.Value.Type().String(), "github.com/prometheus/") {
+				// metrics objects are never constructed (constructors are no-ops)
+				return noopCall{call.Method.Type().(*types.Signature)}, nil
+			}
 			panic("runtime error: invalid memory address or nil pointer dereference (method invoked on nil interface)")
 		}
 		if f := lookupMethod(fr.i, recv.t, call.Method); f == nil {
@@ -317,6 +323,14 @@ func call(i *interpreter, caller *frame, callpos token.Pos, fn value, args []val
 		return callBuiltin(caller, callpos, fn, args)
 	case poison:
 		panic(unsupported("call of poisoned function value: " + fn.why))
+	case noopCall:
+		switch fn.sig.Results().Len() {
+		case 0:
+			return nil
+		case 1:
+			return zero(fn.sig.Results().At(0).Type())
+		}
+		return zero(fn.sig.Results())
 	}
 	panic(fmt.Sprintf("cannot call %T", fn))
 }
@@ -531,6 +545,16 @@ func userInitAllowed(callee *ssa.Function) bool {
 func panicString(p interface{}) string {
 	switch p := p.(type) {
 	case targetPanic:
+		if it, ok := p.v.(iface); ok {
+			if isStr(it.v) {
+				return toString(it.v)
+			}
+			if pp, ok := it.v.(*value); ok && pp != nil {
+				if st, ok := (*pp).(structure); ok && len(st) > 0 && isStr(st[0]) {
+					return toString(st[0]) // errors.errorString / fmt.wrapError message
+				}
+			}
+		}
 		return toString(p.v)
 	case error:
 		return p.Error()
